@@ -13,6 +13,8 @@ type Gen struct {
 	ref  *Ref
 	// Spare[i]: value i is likely to have spare capacity in its backing slice (generator bias only)
 	Spare []bool
+	// Keys: when set, the key alphabet of this generator (instead of keyAlphabet)
+	Keys []*PV
 }
 
 func NewGen(r *lib.Rng) *Gen { return &Gen{R: r, ref: &Ref{}} }
@@ -70,7 +72,31 @@ func Any(p *PV) bool     { return true }
 var keyAlphabet = []*PV{St("a"), St("b"), St("c"), In(1), Ar(St("a")), In(2), St("d")}
 var scalarAlphabet = []*PV{In(1), In(2), In(3), In(0), St("a"), St("b"), St("c"), St(""), U(), Bo(true)}
 
-func (g *Gen) RandKey() *PV { return keyAlphabet[g.R.Intn(len(keyAlphabet))] }
+func (g *Gen) RandKey() *PV {
+	if len(g.Keys) > 0 {
+		return g.Keys[g.R.Intn(len(g.Keys))]
+	}
+	return keyAlphabet[g.R.Intn(len(keyAlphabet))]
+}
+
+// AlikeKeys: a key alphabet in which different keys print alike (1 and '1', true and 'true', undef and 'undef',
+// the empty string) and equal keys are different trees: hashes with the same entries in another order - also with
+// such keys inside - alone, inside an array and as the value of an inner entry; a hash entry's two element array.
+func AlikeKeys() []*PV {
+	one, sone, tr, str, un, sun, emp := In(1), St("1"), Bo(true), St("true"), U(), St("undef"), St("")
+	h1 := Ha(En(one, St("a")), En(sone, St("b")))
+	h1r := Ha(En(sone, St("b")), En(one, St("a")))
+	h1x := Ha(En(sone, St("a")), En(one, St("b"))) // not equal to h1
+	h2 := Ha(En(tr, In(1)), En(str, In(2)), En(St("z"), In(3)))
+	h2r := Ha(En(St("z"), In(3)), En(str, In(2)), En(tr, In(1)))
+	h3 := Ha(En(un, In(0)), En(sun, In(0)), En(emp, In(0)))
+	h3r := Ha(En(emp, In(0)), En(un, In(0)), En(sun, In(0)))
+	ab := Ha(En(St("a"), In(1)), En(St("b"), In(2)))
+	ba := Ha(En(St("b"), In(2)), En(St("a"), In(1)))
+	return []*PV{one, sone, tr, str, un, sun, emp, St("a"), h1, h1r, h1x, h2, h2r, h3, h3r, ab, ba,
+		Ar(St("p"), h1), Ar(St("p"), h1r), Ha(En(h1, In(1)), En(St("q"), In(2))), Ha(En(St("q"), In(2)), En(h1r, In(1))),
+		Ha(En(St("k"), h2)), Ha(En(St("k"), h2r)), Ar(one, sone), Ar(sone, one), Ar(St("a"))}
+}
 
 func (g *Gen) RandScalar() *PV { return scalarAlphabet[g.R.Intn(len(scalarAlphabet))] }
 
@@ -111,7 +137,7 @@ func (g *Gen) RandHash(depth int) *PV {
 		k := g.RandKey()
 		dup := false
 		for _, e := range h.L {
-			if e.L[0].Equal(k) {
+			if Veq(e.L[0], k) {
 				dup = true
 			}
 		}
@@ -178,6 +204,14 @@ func (g *Gen) elemOf(p *PV, key bool) int {
 	}
 	if e.K == "e" {
 		return g.Lit(e)
+	}
+	if len(g.Keys) > 0 && g.R.Chance(1, 2) {
+		// an equal key that is another tree (a hash with its entries in another order)
+		for _, k := range g.Keys {
+			if Veq(k, e) && !k.Equal(e) {
+				return g.Lit(k)
+			}
+		}
 	}
 	for i, q := range g.Pool {
 		if q.Equal(e) && g.R.Chance(1, 2) {
@@ -376,8 +410,12 @@ func (g *Gen) Step(w Weights) {
 }
 
 // RandomHistory: n random steps
-func RandomHistory(r *lib.Rng, n int, w Weights) []Op {
+func RandomHistory(r *lib.Rng, n int, w Weights) []Op { return RandomHistoryKeys(r, n, w, nil) }
+
+// RandomHistoryKeys: n random steps over the given key alphabet (nil: the default one)
+func RandomHistoryKeys(r *lib.Rng, n int, w Weights, keys []*PV) []Op {
 	g := NewGen(r)
+	g.Keys = keys
 	for len(g.Ops) < n {
 		g.Step(w)
 	}
